@@ -8,7 +8,7 @@
     ([all_fixed]: the tree the check runs against; [pinned]: the tree as found).
     Spec (Val/CoerceSpec.v): [conforms], [ref_coerce] (RefCoerce), [ref_request]. *)
 From Coq Require Import List NArith ZArith Bool.
-From ApiFu Require Import Base.Sexp Val.Values Val.CoerceModel Val.CoerceSpec Val.CoerceProofs Val.CoerceReasons Val.CoerceRefine Val.CoerceRoutes Val.CoerceTotal Val.CoerceComplete.
+From ApiFu Require Import Base.Sexp Val.Values Val.CoerceModel Val.CoerceSpec Val.CoerceProofs Val.FloatExact Val.CoerceReasons Val.CoerceRefine Val.CoerceRoutes Val.CoerceSameValue Val.CoerceTotal Val.CoerceComplete.
 Import ListNotations.
 
 (** Hypotheses, all true of the real system and checked on every case of the correspondence:
@@ -147,16 +147,27 @@ Theorem C05_request_exact : forall E dt, env_ok E = true -> env_closed E = true 
   end.
 Proof. exact request_exact. Qed.
 
-(** ** route_independent.  [same_value l j]: the literal and the variable value spell the same
-    client value; [strip_nn t1 = strip_nn t2]: the types differ at most in non-null wrappers (all
-    the validator allows between a variable and its location, [compatible_strip]).  Literal
-    versus variable value, any input type (input objects, defaults and hooks included): *)
+(** ** route_independent.  [same_client_value l j]: the literal and the variable value spell the same
+    client value (an integer literal and the JSON number that is exactly that integer, a float
+    literal and the binary64 its text rounds to, an enum name and the string, ...);
+    [jnum_wf j]: every JSON number is a well-formed binary64 in canonical form (a representation
+    invariant of the exchange format, checked on every case);
+    [strip_nn t1 = strip_nn t2]: the types differ at most in non-null wrappers (all the validator
+    allows between a variable and its location, [compatible_strip]).  Literal versus variable
+    value, any input type (input objects, defaults and hooks included): *)
 Theorem C05_route_independent : forall E dt, env_ok E = true -> forall vv l j t1 t2 a1 a2 g1 g2,
-  same_value l j -> jval_ok j = true -> strip_nn t1 = strip_nn t2 ->
+  same_client_value l j -> jnum_wf j = true -> jval_ok j = true -> strip_nn t1 = strip_nn t2 ->
   coerce_literal all_fixed E dt vv l t1 a1 = Ok g1 ->
   coerce_var_value all_fixed E dt j t2 a2 = Ok g2 ->
   g1 = g2.
-Proof. exact route_independent. Qed.
+Proof. exact route_independent_wf. Qed.
+
+(** the arithmetic behind it (round 1 carried this as a premise): ParseFloat of an integer
+    literal's text is exactly the binary64 that holds that integer, when there is one.  An integer
+    no binary64 holds (2^53+1) has no JSON spelling at all: see [Examples/C05.v, beyond_2_53]. *)
+Theorem C05_integer_literal_is_exact_float : forall d z,
+  f64_wf d = true -> f64_to_Z d = Some z -> f64_of_Q z 1 = Some d.
+Proof. exact f64_of_Q_exact. Qed.
 
 Theorem C05_validator_types_differ_in_non_null_only : forall lt vt,
   types_compatible lt vt = true -> strip_nn lt = strip_nn vt.
@@ -167,12 +178,12 @@ Proof. exact compatible_strip. Qed.
 Theorem C05_route_nested : forall E dt, env_ok E = true -> forall defs vv v r j def c L t a ld g1 g2,
   find_def v defs = Some def -> aget v vv = Some c ->
   coerce_var_value all_fixed E dt j (vd_type def) true = Ok c ->
-  same_value r j -> jval_ok j = true -> lit_nodup L = true ->
+  same_client_value r j -> jnum_wf j = true -> jval_ok j = true -> lit_nodup L = true ->
   usage_ok all_fixed E defs L (Some t) ld = true ->
   coerce_literal all_fixed E dt vv L t a = Ok g2 ->
   coerce_literal all_fixed E dt vv (subst_var v r L) t a = Ok g1 ->
   g1 = g2.
-Proof. exact route_nested. Qed.
+Proof. exact route_nested_wf. Qed.
 
 (** omitted in favour of the variable's default *)
 Theorem C05_route_variable_default : forall E dt, env_ok E = true -> forall vv l tv t a c g1,
@@ -307,6 +318,7 @@ Print Assumptions C05_variable_values_complete.
 Print Assumptions C05_absent_item_variable_is_error.
 Print Assumptions C05_served_unless_runtime_reason.
 Print Assumptions C05_route_independent.
+Print Assumptions C05_integer_literal_is_exact_float.
 Print Assumptions C05_validator_types_differ_in_non_null_only.
 Print Assumptions C05_route_nested.
 Print Assumptions C05_route_variable_default.
